@@ -80,7 +80,13 @@ pub struct RefPartial {
 
 /// the checks of the verifier in the documented order of errors, then the recomputation
 pub fn ref_check(h: usize, leafs: &[(usize, Digest)], auth: &[Digest]) -> (RefVerdict, Option<RefPartial>) {
-    if h > MAX_H {
+    ref_check_lim(h, leafs, auth, MAX_H)
+}
+
+/// `max_h` = the largest admissible height (the generator uses a larger one to produce proofs that would be
+/// accepted if the height limit were wrong)
+pub fn ref_check_lim(h: usize, leafs: &[(usize, Digest)], auth: &[Digest], max_h: usize) -> (RefVerdict, Option<RefPartial>) {
+    if h > max_h {
         return (RefVerdict::TooHigh, None);
     }
     let n = 1usize << h;
@@ -205,6 +211,13 @@ fn verify_reply(h: usize, leafs: &[(usize, Digest)], auth: &[Digest], root: Dige
     let (want, class) = ref_verify(h, leafs, auth, root);
     st.hit(&format!("verify:{}", class));
     st.hit(&format!("verify:height-class:{}", height_class(h)));
+    if h > MAX_H && h <= 62 {
+        if let RefVerdict::Computed(r) = ref_check_lim(h, leafs, auth, 62).0 {
+            if r == root {
+                st.hit("verify:reject:height(everything else valid)");
+            }
+        }
+    }
     if leafs.len() > 1 {
         let mut is: Vec<usize> = leafs.iter().map(|x| x.0).collect();
         is.sort_unstable();
@@ -460,7 +473,7 @@ pub fn synth(rng: &mut Rng, h: usize, max_len: usize) -> Synth {
     let leafs: Vec<(usize, Digest)> = idx.iter().map(|&i| (i, *claimed.entry(i).or_insert_with(|| rand_digest(rng)))).collect();
     let keys: Vec<usize> = claimed.keys().copied().collect();
     let auth: Vec<Digest> = ref_needed(h, &keys).iter().map(|_| rand_digest(rng)).collect();
-    let root = match ref_check(h, &leafs, &auth).0 {
+    let root = match ref_check_lim(h, &leafs, &auth, 62).0 {
         RefVerdict::Computed(r) => r,
         _ => Digest::default(),
     };
@@ -610,7 +623,7 @@ pub fn gen(rng: &mut Rng, thorough: bool, out: &mut Vec<String>) {
     for r in 0..rounds {
         let h = match rng.below(10) {
             0 => 0,
-            1 => 1,
+            1 => if r % 4 == 0 { *rng.pick(&[32usize, 32, 33, 40, 62]) } else { 1 },
             2 => 31,
             3 => 30,
             4 => *rng.pick(&[2usize, 3, 4, 5]),
